@@ -1,131 +1,288 @@
-// C10 (part): run-time Z_p operator class Zp_field_operators<unsigned int> against exact 128-bit arithmetic.
-#include "vf.h"
+// C10 target zp_ops: the stateless run-time operator classes Zp_field_operators<unsigned int>,
+// Zp_field_operators<unsigned long> and Z2_field_operators against exact 128-bit arithmetic.
+//
+// Tape: byte 0 = 0xFE selects the exhaustive sub-domain [class, prime index, a, b, c] (enumerated by `enums`);
+// anything else is a random case: class, mode (arithmetic / conversions / refusal / copies), prime, operations.
+#include "c10.h"
+
+#include <gudhi/Fields/Z2_field_operators.h>
 #include <gudhi/Fields/Zp_field_operators.h>
-#include <climits>
+
 #include <map>
+#include <stdexcept>
 
 namespace {
-using Ops = Gudhi::persistence_fields::Zp_field_operators<unsigned int>;
-typedef __int128 I128;
+using namespace c10;
+using Gudhi::persistence_fields::Z2_field_operators;
+using Gudhi::persistence_fields::Zp_field_operators;
 
-unsigned int refmod(I128 x, unsigned int p) {
-  I128 r = x % I128(p);
-  if (r < 0) r += p;
-  return (unsigned int)r;
+// The inverse table costs O(p^2) to build (4.8 s for p = 65521 under ASan): one immutable object per prime and process.
+template <class E>
+const Zp_field_operators<E>& cached_ops(uint32_t p) {
+  static std::map<uint32_t, Zp_field_operators<E> > cache;
+  auto it = cache.find(p);
+  if (it == cache.end()) it = cache.emplace(p, Zp_field_operators<E>(E(p))).first;
+  return it->second;
 }
-bool is_prime(unsigned int n) {
-  if (n < 2) return false;
-  for (unsigned int d = 2; (unsigned long)d * d <= n; ++d)
-    if (n % d == 0) return false;
-  return true;
+
+template <class E>
+void zp_triple(vf::Ctx& ctx, const Zp_field_operators<E>& ops, uint32_t p, E a, E b, E c) {
+  if (a == p - 1 || b == p - 1 || c == p - 1) {
+    ctx.hit("operand_p_minus_1");
+    ctx.mark_nontrivial();
+  }
+  // (e + a) * m exceeds 32 bits for reduced operands only when p > 46341 and E = unsigned int; e * m + a never does
+  // _multiply keeps its accumulators in `unsigned int` whatever E is: wrong for every wider element type
+  const char* kf_mul = sizeof(E) > sizeof(unsigned int) ? KF_ZP_WIDE_MUL : nullptr;
+  check_ops_triple<Zp_field_operators<E>, E>(ctx, ops, p, a, b, c, KF_AAM, nullptr, kf_mul);
+  const I128 A = a, C = c;
+  if (a != 0) {
+    E inv = ops.get_inverse(a);
+    VF_CHECK(inv < p && mod(I128(inv) * A, p) == 1, "inverse", p << ":" << a << " inverse " << inv);
+    auto pi = ops.get_partial_inverse(a, c);
+    VF_CHECK(pi.first == inv && I128(pi.second) == C, "partial_inverse", p << ":" << a << " Q=" << c);
+    if (!(kf_mul && ctx.excluded(kf_mul))) VF_CHECK(ops.multiply(a, inv) == 1 % p, "x_times_inverse", p << ":" << a);
+  }
+  VF_CHECK(ops.get_partial_multiplicative_identity(c) == 1, "partial_identity", p << ": Q=" << c);
 }
-const unsigned int kBoundary[] = {2, 3, 5, 7, 11, 13, 251, 257, 32749, 46327, 46337, 65497, 65519, 65521};
+
+template <class E>
+void zp_refusal(vf::Tape& t, vf::Ctx& ctx, const char* ename, uint32_t n) {
+  typedef Zp_field_operators<E> Ops;
+  ctx.desc << "Zp_field_operators<" << ename << ">: set_characteristic(" << n << ")\n";
+  bool threw = false;
+  Ops ops;
+  try {
+    ops.set_characteristic(E(n));
+  } catch (const std::invalid_argument&) {
+    threw = true;
+  }
+  VF_CHECK(threw == !is_prime(n), "refusal", "n=" << n << " threw=" << threw);
+  if (!threw) {
+    VF_CHECK(ops.get_characteristic() == n, "characteristic", "n=" << n);
+    E a = E(operand(t, n)), b = E(operand(t, n)), c = E(operand(t, n));
+    ctx.desc << " then ops on (" << a << "," << b << "," << c << ")\n";
+    zp_triple<E>(ctx, ops, n, a, b, c);
+  } else if (n != 0) {
+    bool threw2 = false;  // the constructor refuses as well (0 means "not initialised" there)
+    try {
+      Ops o2{E(n)};
+    } catch (const std::invalid_argument&) {
+      threw2 = true;
+    }
+    VF_CHECK(threw2, "refusal_constructor", "n=" << n);
+  }
+  ctx.hit(is_prime(n) ? "accept_prime" : "refuse_nonprime");
+  if (!is_prime(n)) ctx.mark_nontrivial();
+}
+
+template <class E>
+void zp_random(vf::Tape& t, vf::Ctx& ctx, const char* ename) {
+  typedef Zp_field_operators<E> Ops;
+  unsigned mode = t.weighted({6, 3, 2, 1, 1});
+  if (mode == 2) {  // refusal of every n in {0,1} + composites, acceptance of primes (all n <= 5040 are also enumerated)
+    uint32_t n = t.chance(3, 4) ? t.below(600) : t.below(5001);
+    zp_refusal<E>(t, ctx, ename, n);
+    return;
+  }
+  if (mode == 4) {  // a refused characteristic must leave a working field behind (or at least not a wrong one)
+    uint32_t p = pick_prime(t, 257, 0);
+    uint32_t n = 4 + t.below(300);
+    while (is_prime(n)) ++n;
+    ctx.desc << "Zp_field_operators<" << ename << ">: p=" << p << ", refused set_characteristic(" << n << "), then inverses mod p\n";
+    if (ctx.excluded(KF_REFUSAL_STATE)) {
+      ctx.hit(std::string("excluded:") + KF_REFUSAL_STATE);
+      return;
+    }
+    Ops ops{E(p)};
+    bool threw = false;
+    try {
+      ops.set_characteristic(E(n));
+    } catch (const std::invalid_argument&) {
+      threw = true;
+    }
+    VF_CHECK(threw, "refusal", "n=" << n);
+    ctx.hit("refusal_on_initialised_object");
+    ctx.mark_nontrivial();
+    if (ops.get_characteristic() == p) {  // still claims to be Z_p: then it has to be Z_p
+      for (uint32_t a = 1; a < p && a < 64; ++a) {
+        E inv = ops.get_inverse(E(a));
+        VF_CHECK(inv < p && mod(I128(inv) * a, p) == 1, "inverse_after_refusal",
+                 "p=" << p << " refused n=" << n << " a=" << a << " inverse " << inv);
+      }
+    }
+    return;
+  }
+  uint32_t p = pick_prime(t, 65521, sizeof(E) > 4 ? 0 : 4);  // 64-bit elements have no boundary near 2^16
+  if (mode == 3 && p > 8191) p = 251;  // copies of the operator object: small tables only
+  ctx.desc << "Zp_field_operators<" << ename << ">: p=" << p << "\n";
+  if (p > 46341) ctx.hit("p_above_46341");
+  if (mode == 3) {  // copies, moves, assignment, swap of the operator object
+    Ops src(cached_ops<E>(p));
+    Ops cp(src);
+    Ops mv(std::move(src));
+    Ops as;
+    as = cp;
+    Ops other(cached_ops<E>(p == 7 ? 11 : 7));
+    swap(other, cp);  // cp is now Z_7 (or Z_11), other is Z_p
+    ctx.desc << " copy/move/assign/swap of the operators, p=" << p << "\n";
+    VF_CHECK(mv.get_characteristic() == p && as.get_characteristic() == p && other.get_characteristic() == p &&
+                 cp.get_characteristic() == (p == 7 ? 11u : 7u), "copy_characteristic", "p=" << p);
+    unsigned steps = 0;
+    do {
+      E a = E(operand(t, p)), b = E(operand(t, p)), c = E(operand(t, p));
+      ctx.desc << " ops on (" << a << "," << b << "," << c << ")\n";
+      switch (steps % 3) {
+        case 0: zp_triple<E>(ctx, mv, p, a, b, c); break;
+        case 1: zp_triple<E>(ctx, as, p, a, b, c); break;
+        default: zp_triple<E>(ctx, other, p, a, b, c); break;
+      }
+      uint32_t q = p == 7 ? 11 : 7;
+      zp_triple<E>(ctx, cp, q, E(a % q), E(b % q), E(c % q));
+    } while (!t.exhausted() && ++steps < 6);
+    ctx.hit("copy_move_swap");
+    return;
+  }
+  const Ops& ops = cached_ops<E>(p);
+  unsigned steps = 0;
+  do {
+    if (mode == 1) {  // conversions of machine integers
+      with_machine_integer(t, ctx, p, sizeof(E), [&](auto x, bool below) {
+        typedef decltype(x) T;
+        ctx.desc << " get_value(" << str(I128(x)) << " as " << type_name<T>() << ")\n";
+        if (below) {
+          ctx.hit("negative_below_minus_p");
+          ctx.mark_nontrivial();
+        }
+        if (I128(x) < 0) ctx.hit("negative");
+        // unsigned integers go through get_value(Element): a wider unsigned type is narrowed by the language before
+        // the class sees it, so the value that reaches the class is E(x) (signed types have their own template)
+        I128 seen = std::is_signed<T>::value ? I128(x) : I128(E(x));
+        E got = ops.get_value(x);
+        VF_CHECK(got == E(mod(seen, p)), std::is_signed<T>::value ? "get_value_signed" : "get_value_unsigned",
+                 "p=" << p << " x=" << str(I128(x)) << " as " << type_name<T>() << " got " << got << " expected " << mod(seen, p));
+      });
+    } else {
+      E a = E(operand(t, p)), b = E(operand(t, p)), c = E(operand(t, p));
+      ctx.desc << " ops on (" << a << "," << b << "," << c << ")\n";
+      zp_triple<E>(ctx, ops, p, a, b, c);
+    }
+  } while (!t.exhausted() && ++steps < 12);
+}
+
+// ---------------------------------------------------------------------------------------------------------- Z_2
+template <class U>
+void z2_triple(vf::Ctx& ctx, unsigned a, unsigned b, unsigned c) {
+  typedef Z2_field_operators Z2;
+  const U ua = U(a), ub = U(b), uc = U(c);
+  const I128 A = a, B = b, C = c;
+  auto R = [&](I128 x) { return bool(mod(x, 2)); };
+#define Z2_CASE type_name<U>() << " (" << a << "," << b << "," << c << ")"
+  VF_CHECK(Z2::get_value(ua) == bool(a), "z2_get_value", Z2_CASE);
+  VF_CHECK(Z2::add(ua, ub) == R(A + B), "z2_add", Z2_CASE);
+  VF_CHECK(Z2::subtract(ua, ub) == R(A - B), "z2_subtract", Z2_CASE);
+  VF_CHECK(Z2::multiply(ua, ub) == R(A * B), "z2_multiply", Z2_CASE);
+  VF_CHECK(Z2::multiply_and_add(ua, ub, uc) == R(A * B + C), "z2_multiply_and_add", Z2_CASE);
+  VF_CHECK(Z2::add_and_multiply(ua, ub, uc) == R((A + B) * C), "z2_add_and_multiply", Z2_CASE);
+  U x;
+  x = ua; Z2::add_inplace(x, ub); VF_CHECK(x == U(R(A + B)), "z2_add_inplace", Z2_CASE);
+  x = ua; Z2::subtract_inplace_front(x, ub); VF_CHECK(x == U(R(A - B)), "z2_subtract_inplace_front", Z2_CASE);
+  x = ub; Z2::subtract_inplace_back(ua, x); VF_CHECK(x == U(R(A - B)), "z2_subtract_inplace_back", Z2_CASE);
+  x = ua; Z2::multiply_inplace(x, ub); VF_CHECK(x == U(R(A * B)), "z2_multiply_inplace", Z2_CASE);
+  x = ua; Z2::multiply_and_add_inplace_front(x, ub, uc); VF_CHECK(x == U(R(A * B + C)), "z2_multiply_and_add_inplace_front", Z2_CASE);
+  x = uc; Z2::multiply_and_add_inplace_back(ua, ub, x); VF_CHECK(x == U(R(A * B + C)), "z2_multiply_and_add_inplace_back", Z2_CASE);
+  x = ua; Z2::add_and_multiply_inplace_front(x, ub, uc); VF_CHECK(x == U(R((A + B) * C)), "z2_add_and_multiply_inplace_front", Z2_CASE);
+  // documented: "Stores the result in the third element"
+  bool aam_back_changes = U(R((A + B) * C)) != uc;
+  if (aam_back_changes && ctx.excluded(KF_Z2_AAM_BACK)) {
+    ctx.hit(std::string("excluded:") + KF_Z2_AAM_BACK);
+  } else {
+    U e = ua;
+    x = uc;
+    Z2::add_and_multiply_inplace_back(e, ub, x);
+    VF_CHECK(x == U(R((A + B) * C)), "z2_add_and_multiply_inplace_back", Z2_CASE << " third element is " << unsigned(x));
+    VF_CHECK(e == ua, "z2_add_and_multiply_inplace_back_first_untouched", Z2_CASE);
+  }
+  VF_CHECK(Z2::are_equal(ua, ub) == (a == b), "z2_are_equal", Z2_CASE);
+  VF_CHECK(Z2::get_inverse(ua) == bool(a), "z2_inverse", Z2_CASE);
+  auto pi = Z2::get_partial_inverse(ua, 35u);
+  VF_CHECK(pi.first == bool(a) && pi.second == 35u, "z2_partial_inverse", Z2_CASE);
+  VF_CHECK(Z2::get_characteristic() == 2 && Z2::get_additive_identity() == false && Z2::get_multiplicative_identity() == true &&
+               Z2::get_partial_multiplicative_identity(7) == true, "z2_constants", Z2_CASE);
+  ctx.mark_nontrivial();  // p - 1 = 1 is an operand, or the triple is all zero (8 cases in total)
+}
+
+void z2_case(vf::Ctx& ctx, unsigned a, unsigned b, unsigned c) {
+  ctx.desc << "Z2_field_operators: ops on (" << a << "," << b << "," << c << ") as bool, unsigned, unsigned long, unsigned char\n";
+  z2_triple<bool>(ctx, a, b, c);
+  z2_triple<unsigned int>(ctx, a, b, c);
+  z2_triple<unsigned long>(ctx, a, b, c);
+  z2_triple<unsigned char>(ctx, a, b, c);
+}
+
+void z2_random(vf::Tape& t, vf::Ctx& ctx) {
+  if (t.below(3) == 0) {
+    unsigned bits = t.below(8);
+    z2_case(ctx, bits & 1, (bits >> 1) & 1, (bits >> 2) & 1);
+    return;
+  }
+  ctx.desc << "Z2_field_operators conversions / non-reduced operands\n";
+  unsigned steps = 0;
+  do {
+    with_machine_integer(t, ctx, 2, sizeof(bool), [&](auto x, bool below) {
+      typedef decltype(x) T;
+      ctx.desc << " get_value(" << str(I128(x)) << " as " << type_name<T>() << ")\n";
+      if (I128(x) < -2) {
+        ctx.hit("negative_below_minus_p");
+        ctx.mark_nontrivial();
+      }
+      VF_CHECK(Z2_field_operators::get_value(x) == bool(mod(I128(x), 2)), "z2_get_value", str(I128(x)) << " as " << type_name<T>());
+    });
+    unsigned u = t.u32(), v = t.u32();  // operands of add/multiply/are_equal are reduced by the class itself
+    ctx.desc << " unsigned operands " << u << "," << v << "\n";
+    VF_CHECK(Z2_field_operators::add(u, v) == bool((u + v) & 1), "z2_add_unreduced", u << "," << v);
+    VF_CHECK(Z2_field_operators::multiply(u, v) == bool(u & v & 1), "z2_multiply_unreduced", u << "," << v);
+    VF_CHECK(Z2_field_operators::are_equal(u, v) == ((u & 1) == (v & 1)), "z2_are_equal_residue", u << "," << v);
+  } while (!t.exhausted() && ++steps < 12);
+}
+
 }  // namespace
 
 namespace vf {
 const char* harness_name() { return "C10/zp_ops"; }
 
 void run_case(Tape& t, Ctx& ctx) {
-  unsigned mode = t.weighted({3, 3, 2, 2});
-  if (mode == 3) {  // refusal of non-primes / acceptance of primes, n <= 5000
-    unsigned int n = t.below(5001);
-    ctx.desc << "set_characteristic(" << n << ")\n";
-    bool threw = false;
-    Ops ops;
-    try {
-      ops.set_characteristic(n);
-    } catch (const std::invalid_argument&) {
-      threw = true;
+  unsigned sel = t.u8();
+  if (sel == 0xFE) {  // exhaustive sub-domain: all triples of all primes <= 31
+    unsigned cls = t.u8() % 3;
+    if (cls == 2) {
+      unsigned a = t.u8() & 1, b = t.u8() & 1, c = t.u8() & 1;
+      z2_case(ctx, a, b, c);
+      return;
     }
-    VF_CHECK(threw == !is_prime(n), "refusal", "n=" << n << " threw=" << threw);
-    if (!threw) VF_CHECK(ops.get_characteristic() == n, "characteristic", "n=" << n);
-    ctx.hit(is_prime(n) ? "accept_prime" : "refuse_nonprime");
-    if (n < 2 || !is_prime(n)) ctx.mark_nontrivial();
+    uint32_t p = kSmallPrimes[t.u8() % 11];
+    unsigned a = t.u8() % p, b = t.u8() % p, c = t.u8() % p;
+    ctx.desc << "exhaustive Zp_field_operators<" << (cls ? "unsigned long" : "unsigned") << ">: p=" << p << " (" << a << "," << b << "," << c << ")\n";
+    if (cls == 0)
+      zp_triple<unsigned int>(ctx, cached_ops<unsigned int>(p), p, a, b, c);
+    else
+      zp_triple<unsigned long>(ctx, cached_ops<unsigned long>(p), p, a, b, c);
     return;
   }
-  unsigned int p;
-  if (mode == 0) {
-    static const unsigned int small[] = {2, 3, 5, 7, 11, 13, 17, 19, 23, 29, 31};
-    p = small[t.below(11)];
-  } else if (mode == 1) {
-    p = kBoundary[t.below(sizeof(kBoundary) / sizeof(kBoundary[0]))];
-  } else {
-    p = 2 + t.below(65520);
-    while (!is_prime(p)) --p;
+  if (sel == 0xFD) {  // exhaustive sub-domain: set_characteristic(n) for every n <= 5040
+    unsigned cls = t.u8() % 2;
+    uint32_t n = (t.u8() % 71) + 71 * (t.u8() % 71);
+    if (cls == 0)
+      zp_refusal<unsigned int>(t, ctx, "unsigned", n);
+    else
+      zp_refusal<unsigned long>(t, ctx, "unsigned long", n);
+    return;
   }
-  static std::map<unsigned int, Ops> cache;  // the inverse table costs O(p^2) to build; Ops is immutable afterwards
-  auto it = cache.find(p);
-  if (it == cache.end()) it = cache.emplace(p, Ops(p)).first;
-  const Ops& ops = it->second;
-  ctx.desc << "p=" << p << "\n";
-  auto operand = [&]() -> unsigned int {
-    switch (t.below(8)) {
-      case 0: return 0;
-      case 1: return 1;
-      case 2: return p - 1;
-      case 3: return p - 2 < p ? p - 2 : 0;
-      case 4: return p / 2;
-      case 5: return 2 % p;
-      default: return t.u16() % p;
-    }
-  };
-  unsigned nops = 1 + t.below(8);
-  for (unsigned k = 0; k < nops; ++k) {
-    unsigned what = t.below(4);
-    if (what == 0) {  // conversion of arbitrary machine integers
-      long long cands[] = {LLONG_MIN, -2LL * p - 1, -(long long)p - 1, -(long long)p, -1, 0, (long long)p, INT_MAX,
-                           (long long)UINT_MAX, INT_MIN, (long long)(int)t.u32(), (long long)t.u64()};
-      long long v = cands[t.below(12)];
-      ctx.desc << " get_value(" << v << ") as ";
-      unsigned ty = t.below(4);
-      if (ty == 0) {
-        int x = (int)v;
-        ctx.desc << "int\n";
-        VF_CHECK(ops.get_value(x) == refmod(x, p), "get_value_int", "p=" << p << " x=" << x << " got " << ops.get_value(x));
-        if (x < -(long long)p) { ctx.hit("negative_below_minus_p"); ctx.mark_nontrivial(); }
-      } else if (ty == 1) {
-        long long x = v;
-        ctx.desc << "long long\n";
-        VF_CHECK(ops.get_value(x) == refmod(x, p), "get_value_ll", "p=" << p << " x=" << x << " got " << ops.get_value(x));
-        if (x < -(long long)p) { ctx.hit("negative_below_minus_p"); ctx.mark_nontrivial(); }
-      } else if (ty == 2) {
-        unsigned int x = (unsigned int)v;
-        ctx.desc << "unsigned\n";
-        VF_CHECK(ops.get_value(x) == refmod(x, p), "get_value_u", "p=" << p << " x=" << x);
-      } else {
-        short x = (short)v;
-        ctx.desc << "short\n";
-        VF_CHECK(ops.get_value(x) == refmod(x, p), "get_value_short", "p=" << p << " x=" << x << " got " << ops.get_value(x));
-        if (x < -(long long)p) { ctx.hit("negative_below_minus_p"); ctx.mark_nontrivial(); }
-      }
-      continue;
-    }
-    unsigned int a = operand(), b = operand(), c = operand();
-    ctx.desc << " ops on (" << a << "," << b << "," << c << ")\n";
-    if (a == p - 1 || b == p - 1 || c == p - 1) { ctx.hit("operand_p_minus_1"); ctx.mark_nontrivial(); }
-    I128 A = a, B = b, C = c;
-    VF_CHECK(ops.add(a, b) == refmod(A + B, p), "add", p << ":" << a << "+" << b);
-    VF_CHECK(ops.subtract(a, b) == refmod(A - B, p), "subtract", p << ":" << a << "-" << b);
-    VF_CHECK(ops.multiply(a, b) == refmod(A * B, p), "multiply", p << ":" << a << "*" << b << " got " << ops.multiply(a, b));
-    VF_CHECK(ops.multiply_and_add(a, b, c) == refmod(A * B + C, p), "multiply_and_add", p << ":" << a << "," << b << "," << c);
-    VF_CHECK(ops.add_and_multiply(a, b, c) == refmod((A + B) * C, p), "add_and_multiply", p << ":" << a << "," << b << "," << c);
-    unsigned int x;
-    x = a; ops.add_inplace(x, b); VF_CHECK(x == refmod(A + B, p), "add_inplace", p << ":" << a << "," << b);
-    x = a; ops.subtract_inplace_front(x, b); VF_CHECK(x == refmod(A - B, p), "subtract_inplace_front", p << ":" << a << "," << b);
-    x = b; ops.subtract_inplace_back(a, x); VF_CHECK(x == refmod(A - B, p), "subtract_inplace_back", p << ":" << a << "," << b);
-    x = a; ops.multiply_inplace(x, b); VF_CHECK(x == refmod(A * B, p), "multiply_inplace", p << ":" << a << "," << b);
-    x = a; ops.multiply_and_add_inplace_front(x, b, c); VF_CHECK(x == refmod(A * B + C, p), "maa_front", p << ":" << a << "," << b << "," << c);
-    x = c; ops.multiply_and_add_inplace_back(a, b, x); VF_CHECK(x == refmod(A * B + C, p), "maa_back", p << ":" << a << "," << b << "," << c);
-    x = a; ops.add_and_multiply_inplace_front(x, b, c); VF_CHECK(x == refmod((A + B) * C, p), "aam_front", p << ":" << a << "," << b << "," << c);
-    x = c; ops.add_and_multiply_inplace_back(a, b, x); VF_CHECK(x == refmod((A + B) * C, p), "aam_back", p << ":" << a << "," << b << "," << c);
-    VF_CHECK(ops.are_equal(a, b) == (a == b), "are_equal", p << ":" << a << "," << b);
-    VF_CHECK(ops.are_equal(a, a + p), "are_equal_residue", p << ":" << a);
-    if (a != 0) {
-      unsigned int inv = ops.get_inverse(a);
-      VF_CHECK(inv < p && refmod(I128(inv) * A, p) == 1, "inverse", p << ":" << a << " inv " << inv);
-      auto pi = ops.get_partial_inverse(a, c);
-      VF_CHECK(pi.first == inv && pi.second == c, "partial_inverse", p << ":" << a);
-    }
+  switch (sel % 8) {
+    case 5:
+    case 6: zp_random<unsigned long>(t, ctx, "unsigned long"); break;
+    case 7: z2_random(t, ctx); break;
+    default: zp_random<unsigned int>(t, ctx, "unsigned"); break;
   }
 }
 }  // namespace vf
